@@ -191,7 +191,7 @@ impl Prioritize {
 
         if frame.is_end_stream() {
             stream.state.send_close();
-            self.reserve_capacity(0, stream, counts);
+            self.reserve_capacity(0, stream, counts, task);
         }
 
         tracing::trace!(
@@ -227,6 +227,7 @@ impl Prioritize {
         capacity: WindowSize,
         stream: &mut store::Ptr,
         counts: &mut Counts,
+        task: &mut Option<Waker>,
     ) {
         let span = tracing::trace_span!(
             "reserve_capacity",
@@ -262,6 +263,15 @@ impl Prioritize {
                     debug_assert!(_res.is_ok());
 
                     self.assign_connection_capacity(diff, stream, counts);
+
+                    // The capacity may have gone to streams with buffered
+                    // data, which are now scheduled: the connection task
+                    // has to write that data.
+                    if !self.pending_send.is_empty() {
+                        if let Some(task) = task.take() {
+                            task.wake();
+                        }
+                    }
                 }
             }
             Ordering::Greater => {
